@@ -35,21 +35,29 @@ theorem takeComment_body (cs : Text) : ∀ x ∈ (takeComment cs).1.dropLast, x 
         · simpa using h
         · exact ih x (by simpa [hA, List.dropLast] using hx)
 
-theorem numberTail_split (cs : Text) : (numberTail cs).1 ++ (numberTail cs).2.1 = cs := by
-  induction cs with
+theorem numberTail_split (m d k : Bool) (cs : Text) :
+    (numberTail m d k cs).1 ++ (numberTail m d k cs).2.1 = cs := by
+  induction cs generalizing m d k with
   | nil => simp [numberTail]
   | cons c cs ih =>
     simp only [numberTail]
-    repeat' split
-    all_goals simp_all
+    split
+    · simp [ih]
+    · split
+      · simp [ih]
+      · simp
 
-theorem dotNumberTail_split (cs : Text) : (dotNumberTail cs).1 ++ (dotNumberTail cs).2.1 = cs := by
-  induction cs with
+theorem dotNumberTail_split (m d k : Bool) (cs : Text) :
+    (dotNumberTail m d k cs).1 ++ (dotNumberTail m d k cs).2.1 = cs := by
+  induction cs generalizing m d k with
   | nil => simp [dotNumberTail]
   | cons c cs ih =>
     simp only [dotNumberTail]
-    repeat' split
-    all_goals simp_all [dotSymbolTail, spanWhile_split]
+    split
+    · simp [dotSymbolTail, spanWhile_split]
+    · split
+      · simp [ih]
+      · simp
 
 theorem stringTail_split : ∀ (cs : Text) (esc : Bool) (a r : Text),
     stringTail esc cs = some (a, r) → a ++ r = cs ∧ a ≠ [] := by
